@@ -608,6 +608,10 @@ func roundTrip(c *core.Ctx, idx int64, v cty.Value, con cty.Type, simple bool) {
 	}
 }
 
+// usedSV is the worker's long-lived SimpleJSONValue variable: every document case decodes into it after the
+// previous case did (single goroutine per worker).
+var usedSV ctyjson.SimpleJSONValue
+
 // simpleCase: SimpleJSONValue marshals with the value's own type and unmarshals
 // with the implied type: "the same data but not necessarily the same type".
 func simpleCase(c *core.Ctx, v cty.Value, desc func() string) {
@@ -877,6 +881,23 @@ func checkDoc(c *core.Ctx, idx int64, doc []byte) {
 	}
 	if !sv.Value.Type().Equals(v.Type()) || !mon.ModelEqual(sv.Value, v) {
 		c.Violate("json.SimpleJSONValue", "UnmarshalJSON disagrees with Unmarshal under the implied type", class, desc(), fmt.Sprintf("%#v vs %#v", sv.Value, v))
+	}
+	// history: the same document decoded into a variable that still holds the previous document's value must give
+	// what a fresh variable gives (the previous value may have any other shape)
+	prevText := fmt.Sprintf("%#v", usedSV.Value)
+	o = core.Guard(func() { err = stdjson.Unmarshal(doc, &usedSV) })
+	c.Eval(1)
+	c.Count("clause:SimpleJSONValue(document) into a used variable")
+	switch {
+	case o.Panicked:
+		c.Violate("json.SimpleJSONValue", "panic: "+core.PanicClass(o.PanicMsg), class+"/used-variable", desc(), o.PanicMsg+"\n"+o.Stack)
+		usedSV = ctyjson.SimpleJSONValue{}
+	case err != nil:
+		c.Violate("json.SimpleJSONValue", "UnmarshalJSON into a variable that held another value failed for a valid document", class, desc(), "held before: "+clipStr(prevText, 300)+"; "+err.Error())
+		usedSV = ctyjson.SimpleJSONValue{}
+	case !usedSV.Value.Type().Equals(sv.Value.Type()) || !mon.ModelEqual(usedSV.Value, sv.Value):
+		c.Violate("json.SimpleJSONValue", "UnmarshalJSON into a variable that held another value gives another result than into a fresh variable", class, desc(),
+			fmt.Sprintf("held before: %s; got %#v, a fresh variable gives %#v", clipStr(prevText, 300), usedSV.Value, sv.Value))
 	}
 	o = core.Guard(func() { out, err = stdjson.Marshal(sv) })
 	c.Eval(1)
